@@ -34,7 +34,9 @@ def iterfault_case(seed, i, engine):
     lo, hi = hx(PREFIX + b"/"), hx(PREFIX + b"0")
     for _ in range(2):
         rev = r.choice([0, 0, r.randint(hist.INIT + 1, max(hist.INIT + 1, sh.dealt))])
-        lines += ["iterfault %d" % r.randint(2, 9), r.choice(["list %s %s %d 0" % (lo, hi, rev), "count %s %s" % (lo, hi)])]
+        lines += ["iterfault %d" % r.choice([1, 1, r.randint(2, 9)]), r.choice(["list %s %s %d 0" % (lo, hi, rev), "count %s %s" % (lo, hi)])]
+    # the node keeps serving afterwards (a fault on the very first fetch of an iterator must not take it down)
+    lines += ["create %s %s" % (hx(PREFIX + b"/zz-after"), hx(b"x")), "rev", "list %s %s 0 0" % (lo, hi)]
     return core.Case("backend", lines, {"engine": engine})
 
 
@@ -54,7 +56,7 @@ def check(rep, tier, seed):
     for i in range(16 if tier == "quick" else 400):
         r = rng_for(seed, "c03s/%d" % i)
         cases.append(sched.gen_schedule(r, 4, r.sample(KEY_POOL[:8], 2), ENGINES[i % 3]))
-    cases += [iterfault_case(seed, i, ENGINES[i % 3]) for i in range(9 if tier == "quick" else 90)]
+    cases += [iterfault_case(seed, i, (ENGINES + ["metrics-memkv"])[i % 5]) for i in range(10 if tier == "quick" else 90)]
     core.run_cases(cases)
     for c in cases:
         rep.count_case(c)
